@@ -157,3 +157,32 @@ Print Assumptions C10_output_pre_update.
 Print Assumptions C10_ip_count.
 Print Assumptions C10_ip_per_unit.
 Print Assumptions C10_ip_step.
+
+(* ================================================================================================================ *)
+(* Tie (T): the update rules GENERATED on this run from the current source text of nodes/readouts/rls.py, lms.py and base.py
+   (coq/gen/Gen_online.v) ARE the model the theorems above are about: for every weight matrix, bias, P, sample and
+   prediction (the target being non-empty and as wide as the prediction), with and without input_bias.                *)
+From RV Require Import base.GenPrelude gen.Gen_online proofs.Gen_online_eq.
+
+(* rls.train returns the new (Wout, bias, P) *)
+Theorem C10_generated_rls_train_is_model (hb : bool) (s : rdo (F:=R)) (x y pred : list R) : length pred = length y -> y <> [] ->
+  GenOnline.rls_train (Wout s) (bias s) hb pred (Pm s) x y
+  = (Wout (rls_update hb s x y pred), bias (rls_update hb s x y pred), Pm (rls_update hb s x y pred)).
+Proof. exact (gen_rls_train_eq hb s x y pred). Qed.
+
+(* lms.train returns the new (Wout, bias); next(alpha) yields the schedule value under the cursor *)
+Theorem C10_generated_lms_train_is_model (sc : sched (F:=R)) (hb : bool) (s : rdo (F:=R)) (x y pred : list R) :
+  length pred = length y -> y <> [] ->
+  GenOnline.lms_train (Wout s) (bias s) hb pred (sched_at sc (cursor s)) x y
+  = (Wout (lms_update sc hb s x y pred), bias (lms_update sc hb s x y pred)).
+Proof. exact (gen_lms_train_eq sc hb s x y pred). Qed.
+
+(* readout_forward: (Wout.T @ x + bias.T).T *)
+Theorem C10_generated_readout_forward_is_model (odim : nat) (s : rdo (F:=R)) (x : list R) :
+  Wout s <> [] -> (forall row, In row (Wout s) -> length row = odim) ->
+  GenOnline.readout_forward (Wout s) (bias s) x = readout_forward odim s x.
+Proof. exact (gen_readout_forward_eq odim s x). Qed.
+
+Print Assumptions C10_generated_rls_train_is_model.
+Print Assumptions C10_generated_lms_train_is_model.
+Print Assumptions C10_generated_readout_forward_is_model.
